@@ -20,6 +20,7 @@ from . import canon
 mon = sys.monitoring
 
 _real_allocate_lock = _thread.allocate_lock
+_real_rlock = _thread.RLock
 
 import time as _time_mod
 _real_time = {n: getattr(_time_mod, n) for n in ('time', 'monotonic', 'perf_counter', 'process_time', 'time_ns',
@@ -974,6 +975,10 @@ def patch_threading():
     threading.BoundedSemaphore = CoopBoundedSemaphore
     threading.Event = CoopEvent
     threading._allocate_lock = CoopLock          # (threading internals created from now on)
+    # importlib's per-module import locks are created through the _thread module at import time: a lazy
+    # `import` inside a library function, executed by two simulated threads, must block cooperatively too
+    _thread.allocate_lock = CoopLock
+    _thread.RLock = CoopRLock
     patch_time()
 
 
@@ -981,6 +986,8 @@ def unpatch_threading():
     for k, v in _orig.items():
         setattr(threading, k, v)
     threading._allocate_lock = _real_allocate_lock
+    _thread.allocate_lock = _real_allocate_lock
+    _thread.RLock = _real_rlock
     unpatch_time()
 
 
